@@ -623,10 +623,10 @@ pub fn check_transition<const N: usize>(
                 // present before: nothing may change, incl. the moment of collection.
                 // Differential oracle: reading everything, in either order, must go
                 // exactly as it would have gone without the add().
-                let want = m0.present[&v].data.is_some();
-                if let Some(mk) = has_marker(g1, v) {
-                    if mk != want {
-                        out.push(Finding::new("add-changed-present", &["C04"], format!("{} on a present vertex changed its data marker to {mk}", op.text())));
+                if let Some(g0) = g0 {
+                    let (before, after) = (guarded(|| g0.v_print(v).ok()).ok().flatten(), guarded(|| g1.v_print(v).ok()).ok().flatten());
+                    if before != after {
+                        out.push(Finding::new("add-changed-present", &["C04"], format!("{} on a present vertex changed what v_print shows from {before:?} to {after:?}", op.text())));
                     }
                 }
                 if let Some(g0) = g0 {
